@@ -17,16 +17,24 @@ fn main() {
         }
         loc.sample(|| serde_json::json!({"f": f, "functors": tfs.len()}));
     }));
-    let spec3 = if quick { Spec { n_min: 3, ..Spec::open(3, 1, 2, 2, 1, 2, 1) } } else { Spec { n_min: 3, ..Spec::open(3, 2, 2, 2, 1, 2, 2) } };
-    let u3 = spec3.universe();
-    let cap3 = if quick { 100_000 } else { 3_000_000 };
-    ctx.run_slice(Slice::new(format!("native-3-nodes[{} first {} x {} functors]", spec3.name(), cap3.min(u3.count()), tfs.len()), u3.count().min(cap3), |i, loc| {
-        let f = u3.get_open(i);
-        for tf in &tfs {
-            loc.more_cases(1);
-            check_native(&f, *tf, loc);
-        }
-    }));
+    // exactly three nodes: complete universes
+    let specs3 = if quick {
+        vec![Spec { n_min: 3, ..Spec::open(3, 1, 2, 2, 1, 2, 1) }]
+    } else {
+        let b = Spec { n_min: 3, ..Spec::open(3, 2, 2, 2, 1, 2, 2) };
+        vec![Spec { e_max: 1, ..b.clone() }, Spec { e_min: 2, lw: 1, a: 1, b: 1, ..b.clone() }, Spec { e_min: 2, ks: 1, kt: 1, ..b }]
+    };
+    for spec3 in specs3 {
+        let u3 = spec3.universe();
+        let tfs = &tfs;
+        ctx.run_slice(Slice::new(format!("native-3-nodes[{} x {} functors]", spec3.name(), tfs.len()), u3.count(), move |i, loc| {
+            let f = u3.get_open(i);
+            for tf in tfs {
+                loc.more_cases(1);
+                check_native(&f, *tf, loc);
+            }
+        }));
+    }
     let tf3: Vec<TF> = vec![TF { n: [1, 1, 1], recipe: 0 }, TF { n: [2, 0, 1], recipe: 0 }, TF { n: [1, 2, 0], recipe: 4 }, TF { n: [0, 1, 2], recipe: 2 }];
     let s4 = Spec { n_min: 4, n_max: 4, e_min: 0, e_max: 1, ks: 1, kt: 1, lw: 3, lx: 1, a: 1, b: 1, q: 0 };
     // every triple of image sizes in {0,1,2}^3 (single-operation images) next to the mixed recipes
